@@ -478,6 +478,7 @@ func c16(c *core.Ctx) string {
 	c16MarkWritten(env)
 	c16Status(env)
 	c16PersistRule(env)
+	c16SessionCtors(env)
 	c16Cache(env)
 	c16KeyDomains(env)
 	// shared with C14: a reconnect restores exactly what the session recorded, so the session may record only batches the
@@ -1585,6 +1586,12 @@ func c16Teardown(e *c16Env) {
 		wit := append([]string{"reached via: " + op.chain}, witness(op.st)...)
 		c.Violate("R-C16-3", op.cons, op.pos, "the teardown of a connection "+harm[op.kind]+" — "+op.how, wit...)
 	}
+	// every other un-registration in the package (admin delete path ...)
+	covered := map[string]bool{}
+	for k := range w.ops {
+		covered[k] = true
+	}
+	c16Unregistrations(e, covered)
 }
 
 // runsParam analyses a helper that receives a function: does every exit of the helper have called
